@@ -192,6 +192,8 @@ type StepInfo struct {
 // (operations are executed one at a time, also with twin stores).
 var nowVal int64
 
+func discardLogger() logging.Logger { return logging.New(io.Discard, 0) }
+
 func unhex(s string) []byte { b, _ := hex.DecodeString(s); return b }
 
 // Open creates the store for a history (fresh database).
